@@ -9,7 +9,6 @@ from mc import dfh  # FIRST: installs the pyarrow stand-in
 import numpy as np
 import pandas as pd
 
-from mc import enums
 from mc.run import Hang
 
 ID = "C37"
@@ -36,14 +35,14 @@ def RULE(tier):
     if tier == "quick":
         parts = f"every split of the {n} rows into <= 3 consecutive partitions incl. empty ones, plus (1,1,1,1)"
         se = "split_every: 1-2 partitions {False}, 3 partitions {2} (+None when no partition is empty), 4 partitions {2,3,False,None}"
-        idx = "RangeIndex (idxmin/idxmax/nlargest/nsmallest additionally: sorted-with-duplicates and unsorted index)"
+        idx = "RangeIndex (idxmin/idxmax/nlargest/nsmallest additionally: unsorted index with duplicate labels)"
     else:
         parts = f"every split of the {n} rows into <= 4 consecutive partitions incl. empty ones"
         se = "split_every in {2,3,False,None} for every partitioning"
-        idx = "RangeIndex (frame 'num' also with an unsorted index = unknown divisions; idxmin/idxmax/nlargest/nsmallest: all 5 index kinds)"
+        idx = "RangeIndex (frame 'num' also with an unsorted index = unknown divisions; idxmin/idxmax and Series.nlargest/nsmallest: all 5 index kinds; frame nlargest/nsmallest: 3 kinds)"
     return (
-        f"8 frames of {n} rows (int, float+NaN, two float+NaN, bool, str, datetime, categorical, nullable Int64 columns) x target (whole frame, each "
-        "distinctive column) x {sum,prod,min,max,mean,var,std,sem} x axis {0,1} x skipna x numeric_only (+ddof=0, min_count=1); count; any/all; "
+        f"7 frames of {n} rows (int+float-with-NaN, two float-with-NaN columns, bool, str, datetime, categorical, nullable Int64 columns) x target (whole frame, each "
+        "distinctive column) x {sum,prod,min,max,mean,var,std,sem} x axis {0,1} x skipna x numeric_only (+ddof=0, min_count in {1, nrows}); count; any/all; "
         "idxmin/idxmax; nunique x dropna; value_counts x sort x ascending x dropna x normalize; mode; nlargest/nsmallest x n x columns; describe "
         "(count/mean/std/min/max rows); cov/corr x min_periods (frame, and column pairs); len -- x " + parts + "; " + se + "; index: " + idx + ". "
         "Oracle: result equals the pandas call on the whole object. non-trivial = >= 2 non-empty partitions."
